@@ -2721,6 +2721,10 @@ def distributed_shampoo(
       return root[:, :precond_dim], metrics
 
     def new_mi_pth_root(stats, exponents, padding_start, prev):
+      # Same rejection as precond_dim(): both branches of the cond below are
+      # traced, and the low-rank one needs room for the packed representation.
+      assert stats.shape[0] > abs(compression_rank) + 2, (
+          "all layers are too small for compression_rank")
       # padding_start == true unpacked gradient dimension size.
       should_compress = _should_compress(compression_rank, padding_start)
 
